@@ -1,6 +1,6 @@
 CONSTANTS
   Layouts = {"TD1", "TD2", "TD3"}
-  Nums = {"A", "C", "E"}
+  Nums = {"A", "C", "E", "F"}
   Dobs = {"A"}
   Exps = {"A"}
   Opts = {"A", "N"}
